@@ -67,6 +67,13 @@ fn check(t: &mut Tape, ctx: &mut Ctx) -> CheckResult {
     let lgot = lgot.strictify().map_err(|e| ctx.fail("map-arrow-wf", format!("lax F(f) has label conflicts: {e}")))?;
     require_iso(ctx, "lax-map-arrow-is-substitution", &lgot, &want, "F(f) (lax trait via dyn_functor) vs substitution")?;
 
+    // the lax functor wrapped as a strict functor (`to_dyn_functor`) and applied to the strict diagram
+    {
+        let dynf = open_hypergraphs::lax::functor::dyn_functor::to_dyn_functor(lf.clone());
+        let img = StrictFunctor::<sv::K, _, _, _, _>::map_arrow(&dynf, &sv::to_strict(f));
+        let img = wf(ctx, "map-arrow-wf", sv::from_strict(&img), "to_dyn_functor(F)(f)")?;
+        require_iso(ctx, "lax-map-arrow-is-substitution", &img, &want, "F(f) (lax functor wrapped by to_dyn_functor, strict trait) vs substitution")?;
+    }
     // the lax trait, through the native path (defined on quotient-free arguments)
     {
         let native = open_hypergraphs::lax::functor::try_define_map_arrow(&lf, &to_lax_d(f)).ok_or_else(|| ctx.fail("lax-native-map-arrow-is-substitution", "try_define_map_arrow returned None on a quotient-free diagram"))?;
